@@ -475,6 +475,9 @@ func dirtySpecials() []Dec {
 			d2 := finDec(n, bigInt(12), -40)
 			d2.F = f
 			out = append(out, d2)
+			d3 := finDec(n, bigInt(5), 7) // same stale exponent as d, different stale coefficient
+			d3.F = f
+			out = append(out, d3)
 		}
 	}
 	return out
